@@ -5,6 +5,7 @@
           events = [[opcode, ds, attrs, outs]] with opcode 1 = fit, 2 = transform, 3 = fit_transform,
                    attrs = decoded public attributes after the call (ints), outs = [[element key, digest]] of the returned value(s),
                    then a decodable flag and the digest of the exact float attributes (memo key)
+          init = the decoded attributes right after construction
    The memo makes "same fitted state and same diagram => same output, whatever the history or call style" an invariant of the trace. *)
 EXTENDS Integers, Sequences, FiniteSets, TLC, FiniteSetsExt, Json, IOUtils, TLCExt
 Cases == JsonDeserialize(IOEnv.TRACE_FILE)
@@ -24,7 +25,6 @@ Walk(c, i, prevAttrs, fitted, memoOut, memoFit) ==
            newOut == {<<e[6], outs[j][1], outs[j][2]>> : j \in 1..Len(outs)}   \* keyed by the EXACT fitted state (digest of the float attributes)
            clash == \E x \in newOut : \E y \in (memoOut \cup newOut) : x[1] = y[1] /\ x[2] = y[2] /\ x[3] # y[3]
        IN IF e[5] = 0 THEN <<"fail", i, "attribute-or-output-not-decodable">>
-          ELSE IF op = 2 /\ ~fitted THEN Walk(c, i + 1, attrs, fitted, memoOut, memoFit)   \* transform before any fit: outside the property
           ELSE IF op = 2 /\ attrs # prevAttrs THEN <<"fail", i, "transform-altered-fitted-state">>
           ELSE IF op \in {1, 3} /\ c.kind = "landscaper" /\ attrs # ExpectedLS(c, ds) THEN <<"fail", i, "fit-depends-on-earlier-fits-or-ignores-user-fixed-parameters">>
           ELSE IF op \in {1, 3} /\ c.kind = "imager" /\ \E m \in memoFit : m[1] = ds /\ m[2] # attrs THEN <<"fail", i, "fit-depends-on-earlier-fits">>
@@ -32,7 +32,9 @@ Walk(c, i, prevAttrs, fitted, memoOut, memoFit) ==
           ELSE IF op \in {2, 3} /\ clash THEN <<"fail", i, "same-state-and-diagram-different-output">>
           ELSE Walk(c, i + 1, attrs, fitted \/ op \in {1, 3}, IF op \in {2, 3} THEN memoOut \cup newOut ELSE memoOut,
                     IF op \in {1, 3} THEN memoFit \cup {<<ds, attrs>>} ELSE memoFit)
-Verdict(c) == Walk(c, 1, <<>>, FALSE, {}, {})
+\* c.init: the attributes right after construction -- a transform BEFORE any fit must leave them alone as well (an estimator whose
+\* first transform silently pins its grid makes every later transform depend on the first one)
+Verdict(c) == Walk(c, 1, Tup(c.init), FALSE, {}, {})
 TInit == k = 1
 TNext == /\ k <= Len(Cases)
          /\ PrintT(<<"V", k>> \o Verdict(Cases[k]))
